@@ -70,3 +70,38 @@ Theorem C11_collision_refuted : exists g ops1 ops2,
   supply (work s2) = supply (work s0) - 10 * amountPerPower.
 Proof. exact InvStake.C11_collision_refuted. Qed.
 Print Assumptions C11_collision_refuted.
+
+(* the same with the hypotheses on the inputs: [fresh_run] follows from the staking transactions of
+   the list carrying pairwise distinct non-zero hashes *)
+From Rigo Require InvSupply InvReach InvClosed.
+Theorem C11_hashes_unique_inputs : forall g ops,
+  (length (gen_validators g) <= 1)%nat -> NoDup (0%N :: InvReach.stake_hashes ops) ->
+  hashes_unique (work (srun (init_chain g) ops)).
+Proof. exact InvClosed.C11_hashes_unique_inputs. Qed.
+Print Assumptions C11_hashes_unique_inputs.
+
+(* C11_never_lost in every state reached from a well-formed genesis document by such a list whose
+   parameter documents keep parameters well formed *)
+Theorem C11_never_lost_inputs : forall g ops t st,
+  (params_ok (gen_params g) /\ (length (gen_validators g) <= 1)%nat /\
+   Forall (fun v : addr * Z => 0 <= v.2 < two63) (gen_validators g) /\
+   Forall (fun h : addr * Z => 0 <= h.2 < two256) (gen_holders g)) ->
+  NoDup (0%N :: InvReach.stake_hashes ops) -> InvReach.opts_ok ops ->
+  let s := srun (init_chain g) ops in
+  st ∈ bonded_stakes (work s) ->
+  st ∈ bonded_stakes (work (deliver s t).1) \/
+  frozen (work (deliver s t).1) !! s_hash st
+    = Some (with_refund (b_height (bctx s) + g_lazyRewardBlocks (gparams s)) st).
+Proof. exact InvClosed.C11_never_lost_inputs. Qed.
+Print Assumptions C11_never_lost_inputs.
+
+(* C11_identity_preserved for the next operation of such a list *)
+Theorem C11_identity_preserved_inputs : forall g ops o st,
+  (length (gen_validators g) <= 1)%nat -> NoDup (0%N :: InvReach.stake_hashes (ops ++ [o])) ->
+  match o with SBegin hd => h_evidence hd = [] | _ => True end ->
+  let s := srun (init_chain g) ops in
+  st ∈ bonded_stakes (work s) ->
+  (forall st', st' ∈ bonded_stakes (work (sstep s o)) -> s_hash st' = s_hash st -> st' = st) /\
+  (forall st', st' ∈ frozen_stakes (work (sstep s o)) -> s_hash st' = s_hash st -> st' = with_refund (s_refund st') st).
+Proof. exact InvClosed.C11_identity_preserved_inputs. Qed.
+Print Assumptions C11_identity_preserved_inputs.
